@@ -508,51 +508,4 @@ theorem faithful_reg_fresh {c : Cat} (h : WF c) (idx : Nat) (node : String) (add
           simp only [List.mem_singleton] at hx
           subst hx; rfl
 
-/-- the writes whose faithfulness is PROVED (a syntactic condition on the write and the catalog):
-    everything outside the catalog, config entries, deregistration of one instance, the first
-    registration of a node (alone or with a service), and service registrations on an unchanged
-    node that do not make a connect-native instance non-native under the same name. Not covered
-    (checked by the Go monitors only): a registration that changes the address of a node which
-    already has instances — among them the unfaithful shape `witnessRenameOrder` — and whole-node
-    deregistration. -/
-def CleanWrite (c : Cat) : Write → Prop
-  | .kv => True
-  | .tok _ => True
-  | .cfgSet _ _ => True
-  | .cfgDel _ => True
-  | .dereg _ (some _) => True
-  | .dereg _ none => False
-  | .reg node addr none => lookup? node c.nodes = some addr ∨ svcsOnNode c node = []
-  | .reg node addr (some s) =>
-      s.node = node ∧
-      ((lookup? node c.nodes = some addr ∧ ¬ LeavesNative c node s ∧
-          (∀ b d, findSvc c node s.sid = some b → b.kind = .proxy d → d ≠ "")) ∨
-       (lookup? node c.nodes ≠ some addr ∧ svcsOnNode c node = []))
-
-theorem faithful_of_cleanWrite {c : Cat} (h : WF c) (idx : Nat) (w : Write) (hw : CleanWrite c w) :
-    Faithful c idx w := by
-  cases w with
-  | kv => exact faithful_kv c idx
-  | tok t => exact faithful_tok c idx t
-  | cfgSet n v => exact faithful_cfgSet c idx n v
-  | cfgDel n => exact faithful_cfgDel c idx n
-  | dereg node sid =>
-    cases sid with
-    | some sid => exact faithful_dereg_svc h idx node sid
-    | none => exact absurd hw id
-  | reg node addr svc =>
-    cases svc with
-    | none =>
-      rcases hw with hw | hw
-      · intro k
-        have : applyWrite idx c (.reg node addr none) = (c, [], []) := by simp [applyWrite, hw]
-        rw [this]
-        exact ViewEq.refl _
-      · exact faithful_reg_node_fresh idx node addr hw
-    | some s =>
-      obtain ⟨hn, hw⟩ := hw
-      rcases hw with ⟨h1, h2, h3⟩ | ⟨h1, h2⟩
-      · exact faithful_reg_svc h idx node addr s hn h1 h2 h3
-      · exact faithful_reg_fresh h idx node addr s hn h2 h1
-
 end CV.Stream
